@@ -11,6 +11,7 @@ import (
 	"os"
 	"runtime"
 	"runtime/debug"
+	"strconv"
 	"strings"
 
 	rt "github.com/arnodel/golua/runtime"
@@ -35,7 +36,7 @@ func main() {
 			"coroutines left suspended by a kill are closed by the harness after the observation is taken (otherwise their goroutines pin the runtime)",
 		},
 		Init: func(tier string) {
-			debug.SetGCPercent(400)
+			debug.SetGCPercent(200)
 			// one Lua thread runs at a time; more Ps only add scheduler and GC chatter
 			runtime.GOMAXPROCS(2)
 			// never let the Go collector schedule a Lua finalizer
@@ -46,6 +47,9 @@ func main() {
 			sweepBudget, foreverBudget := 150, 40
 			if tier == "thorough" {
 				sweepBudget, foreverBudget = 1000, 120
+			}
+			if b, err := strconv.Atoi(os.Getenv("C05_BUDGET")); err == nil && b > 0 { // development aid
+				sweepBudget, foreverBudget = b, b
 			}
 			fams := []*core.Family{
 				sweepFamily("sweep", sweepPrograms(tier), 120, sweepBudget),
